@@ -6,7 +6,7 @@
     Not yet proved: [fs_get_range = filter range_contains] for the wrap-around shape and the
     transcript equality as a theorem; both are checked by the correspondence runs on every
     generated range and session. *)
-From ID Require Import Model.Bounds Model.Ranger Model.Put Proofs.BoundsFacts Proofs.RangerFacts.
+From ID Require Import Base.Bytes Model.Entry Model.Tables Model.FsStore Model.Bounds Model.Ranger Model.Put Proofs.BoundsFacts Proofs.RangerFacts Proofs.FsPutFacts.
 
 Theorem C08_namespace_scan_exact : forall ns n a k, n <= MAX256 ->
   in_bounds rid_cmp (fst (rb_namespace ns)) (snd (rb_namespace ns)) (n, a, k) = (n =? ns).
@@ -30,3 +30,20 @@ Print Assumptions C08_namespace_scan_exact.
 Print Assumptions C08_prefix_removal_bounds_exact.
 Print Assumptions C08_ordered_list_put_is_put.
 Print Assumptions C08_store_effect_any_instance.
+
+(** the parent lookups of the redb store (one point read per prefix of the key, the empty key
+    included) return exactly the stored entries of the author whose key is a prefix *)
+Theorem C08_parent_lookups_exact : forall EH T ns au k, rsorted (t_records T) ->
+  forall e, In e (fs_prefixes_of EH T ns au k) <->
+            In e (recs T) /\ e_ns e = ns /\ e_author e = au /\ is_prefix (e_key e) k = true.
+Proof. exact parents_exact. Qed.
+
+(** and the whole redb-store insert is the abstract insert (same outcome, same content) *)
+Theorem C08_table_put_refines_put : forall EH T e, wf_records T -> wf_entry e ->
+  snd (fs_put prefix_succ EH T e) = snd (put (recs T) e) /\
+  (forall x, In x (recs (fst (fs_put prefix_succ EH T e))) <-> In x (fst (put (recs T) e))) /\
+  wf_records (fst (fs_put prefix_succ EH T e)).
+Proof. exact fs_put_refines. Qed.
+
+Print Assumptions C08_parent_lookups_exact.
+Print Assumptions C08_table_put_refines_put.
